@@ -2564,7 +2564,10 @@ PIP_Solution_Node
 
         WEIGHT_ADD(140);
         if (is_parameter) {
-          p_row.insert(p_index, coeff_i * denom);
+          // NOTE: the coefficient must be added (not assigned), because
+          // a non-basic variable of lower index may have already
+          // contributed to this parameter column.
+          add_mul_assign(p_row[p_index], coeff_i, denom);
           ++p_index;
         }
         else {
